@@ -189,6 +189,98 @@ def sym_default_model(ctx, cfg):
     return PathOutcome(props, dict(n=cfg["n"]), None)
 
 
+def sym_user_model(ctx, cfg):
+    """brew(psms, model=Model(estimator), rng=seed) with a model the user built WITHOUT an rng: brew must
+    hand it the seeded generator (the shuffling inside Model.fit draws from model.rng). The real Model
+    constructor and brew run; _fit_model is intercepted and one draw is taken from the rng of each fold's
+    model copy."""
+    import z3
+    from symx import symnp, vfs, core, world
+    from symx.core import PathOutcome, Unsupported
+    from checks import c12
+    B, D, P, U, T, Q = brewlib.setup()
+    M = c12.setup()[0]
+    vfs.reset()
+    brewlib.HASHES.clear()
+    memo = {}
+    draws = []
+
+    class _Stop(BaseException):
+        pass
+
+    def fake_fit_model(train_set, psms, model, fold):
+        draws[-1].append(model.rng.integers(0, 10 ** 6))
+        model.fold = fold + 1
+        raise _Stop()
+    old = B._fit_model
+    B._fit_model = fake_fit_model
+    Est = c12._estimator_class()
+    c12._REC.clear()
+    c12._REC[7] = dict(fits=[], scored=[], scores={}, scaled=False)
+    try:
+        for run in range(2):
+            draws.append([])
+            ds, s = brewlib.make_dataset(ctx, D, cfg["n"], 0, 2, "pm1")
+            for i, z in enumerate(s["lab"]):
+                ctx.assume(z == z3.BoolVal(i % 2 == 0))
+            model = M.Model(Est(7), scaler="as-is", max_iter=1, override=True)  # no rng given
+            try:
+                B.brew([ds], model=model, test_fdr=0.01, folds=2, max_workers=1, rng=symnp.Generator("seeded", memo=memo, seed=42))
+            except _Stop:
+                pass
+    except Unsupported:
+        raise
+    except Exception as ex:
+        return PathOutcome([], dict(n=cfg["n"]), None, "exc", note=type(ex).__name__ + ":" + str(ex)[:80])
+    finally:
+        B._fit_model = old
+    props = [("a_fold_model_was_about_to_be_fitted_in_both_runs", z3.BoolVal(len(draws) == 2 and all(len(d) == 1 for d in draws)))]
+    if len(draws) == 2 and all(len(d) == 1 for d in draws):
+        a, b = draws[0][0], draws[1][0]
+        same = (core._z(a) == core._z(b)) if isinstance(a, core.Sym) or isinstance(b, core.Sym) else z3.BoolVal(a == b)
+        props.append(("the_generator_of_a_user_supplied_model_derives_from_the_seed", same))
+    return PathOutcome(props, dict(n=cfg["n"]), None)
+
+
+def real_user_model(cfg, inp):
+    import tempfile
+    import numpy as np
+    import mokapot
+    from sklearn.svm import LinearSVC
+    B = __import__("sys").modules["mokapot.brew"]
+    n = int(inp["n"])
+    draws = []
+
+    class _Stop(BaseException):
+        pass
+
+    def fake_fit_model(train_set, psms, model, fold):
+        draws.append(int(model.rng.integers(0, 10 ** 6)))
+        raise _Stop()
+    old = B._fit_model
+    B._fit_model = fake_fit_model
+    try:
+        with tempfile.TemporaryDirectory(prefix="verif_c08u_") as d:
+            rows = dict(scan=list(range(1, n + 1)), mass=[1] * n, labels=[i % 2 == 0 for i in range(n)], f1=[float(i) for i in range(n)], keycols=2)
+            p, df = brewlib.real_dataset(None, d, 0, rows, "pm1")
+            for run in range(2):
+                ds = mokapot.read_pin(p, max_workers=1)[0]
+                try:
+                    mokapot.brew([ds], model=mokapot.Model(LinearSVC(dual=False)), test_fdr=0.01, folds=2, max_workers=1, rng=42)
+                except _Stop:
+                    pass
+    except Exception as ex:
+        return dict(exception=repr(ex), violation=None)
+    finally:
+        B._fit_model = old
+    if len(draws) != 2:
+        return dict(violation="expected one intercepted fit per run, got %d" % len(draws))
+    if draws[0] != draws[1]:
+        return dict(violation="brew(psms, model=Model(LinearSVC()), rng=42) twice: the generator of the fold model draws %d in the first run and %d in the second - the user's model keeps its entropy-seeded generator, so the shuffling in Model.fit is not reproducible"
+                              % (draws[0], draws[1]))
+    return dict(outputs=None, violation=None)
+
+
 def real_default_model(cfg, inp):
     import tempfile
     import numpy as np
@@ -289,6 +381,9 @@ def harnesses(tier):
     hs.append(Harness("default_model[brew(rng=seed) builds its own model]", dict(n=4), sym_default_model, real="default_model", functions=[B.brew, B.PercolatorModel.__init__],
                       bounds=dict(runs=2), stubs=["numpy.random in mokapot.model -> shim (unseeded generator: arbitrary draws; seeded: function of (seed, index))", "construction intercepted after PercolatorModel.__init__"],
                       assumptions=["scikit-learn's KFold/GridSearchCV are deterministic functions of random_state"], sample_rate=1.0))
+    hs.append(Harness("user_model[brew(model=Model(est) built without rng, rng=seed)]", dict(n=4), sym_user_model, real="user_model", functions=[B.brew],
+                      bounds=dict(runs=2), stubs=["numpy.random in mokapot.model -> shim (unseeded generator: arbitrary draws; seeded: function of (seed, index))", "_fit_model intercepted: one draw from the fold model's generator"],
+                      assumptions=["a copy of a generator continues the stream of the original"], sample_rate=1.0))
     if tier == "quick":
         add("n=4,folds=2,rerun same seed,task order", dict(sizes=[4], folds=2, mode="rerun"))
         add("n=4,folds=2,models fed back in any order", dict(sizes=[4], folds=2, mode="feedback"))
@@ -371,4 +466,4 @@ def _pair(cfg, inp, run, splits, folds):
     return dict(outputs=None, violation=None)
 
 
-REAL = {"rerun": real_rerun, "split_sessions": real_split_sessions, "default_model": real_default_model}
+REAL = {"rerun": real_rerun, "split_sessions": real_split_sessions, "default_model": real_default_model, "user_model": real_user_model}
